@@ -22,7 +22,10 @@ type vTrigSetting struct {
 // vGenTrigSetting draws an edge/level/auto combination (no edge-multi).
 func vGenTrigSetting(r *rand.Rand, signed bool, period time.Duration, nsamp int) vTrigSetting {
 	var ts TriggerState
-	kind := r.Intn(8)
+	kind := r.Intn(9)
+	if kind == 8 {
+		return vTrigSetting{ts, "none"} // every trigger off: the channel idles until the next settings arrive
+	}
 	edge := kind == 0 || kind == 3 || kind == 4 || kind == 6
 	level := kind == 1 || kind == 3 || kind == 5 || kind == 6
 	auto := kind == 2 || kind == 4 || kind == 5 || kind == 6 || kind == 7
